@@ -372,8 +372,9 @@ def c17_module(w, m):
             w.u8(s)
 
 
-def c17_map(mode, pool, regs, default, queries, default_at=(0, 255), from_iter=False, perm=(), numeric=False):
-    """regs: (path or pool index, filt, flavor)"""
+def c17_map(mode, pool, regs, default, queries, default_at=(0, 255), from_iter=False, perm=(), numeric=False, route=0, mix_at=0, digit_mask=0):
+    """regs: (path or pool index, filt, flavor). Trailing bytes (absent = zeros = legacy meaning): route 0..5 (1 min_level, 2 min_by_path_filter,
+    3 collect, 4 from_iter, 5 mix split at mix_at), digit_mask bit i turns the last segment of registration i into its digit sibling (a->a2, aa->aa1, b->b9)."""
     w = W().u8(mode)
     w.rng(len(pool), 1, 4)
     for p in pool:
@@ -401,6 +402,8 @@ def c17_map(mode, pool, regs, default, queries, default_at=(0, 255), from_iter=F
         c17_module(w, module)
         w.u8(mflavor)
         c17_ev(w, ev, numeric)
+    if route or mix_at or digit_mask:
+        w.rng(route, 0, 5).u8(mix_at).le(digit_mask, 2)
     return w
 
 
@@ -444,6 +447,16 @@ def corpus_c17():
         6, [[AA], [AA, AA]], [(0, (3, None), 0), (1, (6, 2), 1)], None,
         [(("related", 200, 2, None, [A]), 1, (("i64", 7), ("i64", 0), False)), (("related", 0, 1, None, []), 2, plain(("absent",))), (("free", [A]), 0, plain(("i64", 300)))],
         numeric=True))
+    # a name and the name plus a digit as siblings, the shorter one with a registered descendant: whole-path string order
+    # (a2 < a::a) differs from per-node segment order (a < a2); built through the iterator routes
+    save(t, "h-map-from-iter-digit-sibling", c17_map(
+        0, [[A]], [([A, A], (0, None), 0), ([A], (3, None), 1)], None,
+        [(("related", 255, 1, None, []), 0, plain(("typed", 0))), (("related", 0, 2, None, [A]), 1, plain(("typed", 0)))],
+        route=4, digit_mask=0b10))
+    save(t, "h-map-mix-digit-sibling-u8", c17_map(
+        5, [[A, AA]], [([A, AA, B], (1, None), 0), ([A, AA], (6, None), 1), ([A], (3, None), 2), ([B], (2, None), 0)], (4, None),
+        [(("related", 64, 2, None, []), 0, plain(("i64", 2))), (("related", 0, 3, None, []), 2, plain(("i64", 2)))],
+        numeric=True, route=5, mix_at=200, digit_mask=0b10))
     save(t, "h-filter-text-prefix-upper", c17_filter(7, (2, None), plain(("text", ("named", 4, 4, 0xFFFF, 2, 3, 1))), ctor=1))
     save(t, "h-filter-overlong-name", c17_filter(7, (3, None), plain(("text", ("named", 7, 6, 0, 0, 0, 0))), ctor=2))
     save(t, "h-filter-unleveled-default", c17_filter(7, (2, 3), (("text", ("junk", "é1(")), ("typed", 0), True)))
